@@ -41,7 +41,7 @@ man = {
     "notes": "Static analysis only (DESIGN.md). Exit 0 = every obligation discharged (KNOWN-FINDING lines for recorded defects); 1 = VIOLATION; "
              "2 = ANALYSIS-ERROR (vanished anchor / unrecognised shape / instance floor not met). Thorough tier adds the in-memory sensitivity audit "
              "(every mutant goes through the same pipeline as a real change, reference comparison included). Self-tests under /verif/selftest: "
-             "matrix.py (216 seeded breaking changes and 137 behaviour-preserving refactorings on scratch copies), try_equiv.py, equiv_auto.py, global_audit.py.",
+             "matrix.py (256 seeded breaking changes and 137 behaviour-preserving refactorings on scratch copies), try_equiv.py, equiv_auto.py, global_audit.py.",
     "not_applicable": na,
 }
 json.dump(man, open("/verif/MANIFEST.json", "w"), indent=1)
